@@ -66,6 +66,8 @@ class GenCfg:
     first_row: int = 3
     ops: Tuple[str, ...] = ("in", "in", "out", "out", "out", "intra")  # operation mix once something is held
     bulk_prob: float = 0.0  # probability of a "volume" tail: one funding lot + 60..180 small rows of a few types (template/sheet sizing)
+    big_lots: int = 0  # n in 10 acquisitions are 1 .. 3000 whole units (dust-relative-to-lot effects); True counts as 1
+    fiat_only_out_fee: bool = False  # now and then a disposal whose fee was paid in fiat: crypto_fee 0, fiat_fee supplied
     zero_received_transfers: bool = True  # now and then a transfer whose whole amount is its fee (received == 0)
     shared_uid_prob: float = 0.0  # probability that a row reuses the previous row's unique id (one on-chain hash entered as several rows)
 
@@ -74,8 +76,12 @@ ROUND_AMOUNTS = [1, 2, 3, 5, 10, 100]
 
 
 @st.composite
-def amount_units(draw: Any, wide: bool = False) -> int:
+def amount_units(draw: Any, wide: bool = False, big: int = 0) -> int:
     kind = draw(st.integers(0, 9))
+    if big and kind >= 10 - int(big) and not wide:
+        # a large holding (still inside R1: exact through a spreadsheet double): a 1e-11 sliver of it is below rp2's 13-decimal
+        # resolution as a *percentage* of the lot
+        return draw(st.integers(1, 3000)) * UNIT
     if kind <= 3:
         base = draw(st.sampled_from(ROUND_AMOUNTS))
         div = draw(st.sampled_from([1, 1, 2, 4, 10, 100, 1000]))
@@ -214,6 +220,8 @@ def _size_debit(draw: Any, state: _State, available: int) -> int:
                 other = draw(st.sampled_from(candidates))
                 if pick + other <= available:
                     pick += other
+            if pick + 1 <= available and draw(st.integers(0, 3)) == 0:
+                pick += 1  # cross the lot boundary by one unit of 1e-11: the next lot gives a sliver only
             return pick
         return available
     if kind == 5:
@@ -260,7 +268,7 @@ def history(draw: Any, cfg: GenCfg = GenCfg()) -> Dict[str, Any]:
                 in_cycle += 1
             else:
                 ttype = draw(st.sampled_from(cfg.in_types))
-            units = draw(amount_units(wide=cfg.wide))
+            units = draw(amount_units(wide=cfg.wide, big=cfg.big_lots))
             row: Dict[str, Any] = {
                 "table": "in",
                 "row": state.next_row,
@@ -338,6 +346,8 @@ def history(draw: Any, cfg: GenCfg = GenCfg()) -> Dict[str, Any]:
                     fee_units = max(1, min(take - 1, draw(st.sampled_from([1, take // 100 or 1, take // 10 or 1]))))
                 row["out"] = units_to_str(take - fee_units)
                 row["fee"] = units_to_str(fee_units)
+            if cfg.fiat_only_out_fee and ttype != "fee" and row["fee"] == "0" and draw(st.integers(0, 3)) == 0:
+                row["fiat_fee"] = units_to_str(draw(st.integers(1, 50 * 100)) * (UNIT // 100))
             if cfg.fiat_columns:
                 fc = draw(st.integers(0, 7))
                 out_f = model.F(row["out"])
